@@ -157,6 +157,8 @@ func Supervise(self string, chk *Check, tier string, seed int64) int {
 	}
 	var results []*Result
 	var crashViol []Violation
+	sigDeaths := map[string]int{}
+	gaveUp := false
 	runs := make([]*childRun, procs)
 	for k := 0; k < procs; k++ {
 		cr, err := startChild(self, chk, tier, seed, k, procs, nil, budget)
@@ -224,8 +226,12 @@ func Supervise(self string, chk *Check, tier string, seed int64) int {
 				return 3
 			}
 			cr.tries++
-			if cr.tries > 12 {
-				fmt.Fprintf(os.Stderr, "child %d keeps dying; giving up after %d restarts\n", cr.shard, cr.tries)
+			sigDeaths[crashSig(stderr)]++
+			if cr.tries > 12 || sigDeaths[crashSig(stderr)] > 4 {
+				// the same death has been attributed to a case several times already: the
+				// violation is established, the rest of this shard is left unexplored
+				fmt.Fprintf(os.Stderr, "child %d keeps dying (%s); not restarted again after %d restarts\n", cr.shard, crashSig(stderr), cr.tries)
+				gaveUp = true
 				break
 			}
 			ncr, serr := startChild(self, chk, tier, seed, cr.shard, procs, cr.skip, budget)
@@ -294,6 +300,12 @@ func Supervise(self string, chk *Check, tier string, seed int64) int {
 		total.Violations = append(total.Violations, r.Violations...)
 	}
 	total.Violations = append(crashViol, total.Violations...)
+	if gaveUp {
+		// a shard was abandoned: nothing of this run is exhaustive
+		for _, t := range total.Spaces {
+			t.Exhaustive = false
+		}
+	}
 	for name, m := range ntAll {
 		if t := total.Spaces[name]; t != nil {
 			t.Nontrivial = int64(len(m))
@@ -333,6 +345,21 @@ func Supervise(self string, chk *Check, tier string, seed int64) int {
 				rep, _ := replayInFresh(self, file)
 				if rep {
 					ok++
+				}
+			}
+			if ok != 5 && len(v.Preceding) > 0 {
+				// The case may depend on state the library carried over from earlier calls in the
+				// same process: replay it after the cases its worker ran before it.
+				v.NeedsPreceding = true
+				file = writeReplay(v, 0)
+				ok = 0
+				for i := 0; i < 5; i++ {
+					if rep, _ := replayInFresh(self, file); rep {
+						ok++
+					}
+				}
+				if ok == 5 {
+					v.Human += fmt.Sprintf(" [reproduces only after the %d cases this worker ran before it: state carried across calls]", len(v.Preceding))
 				}
 			}
 			if ok != 5 {
